@@ -49,6 +49,35 @@ class FmtLeaf:
 
 _cache = {}
 
+REGEX_REPLACERS = ("regex::Regex::replace_all", "regex::Regex::replace", "regex::Regex::replacen")
+
+
+def regex_pattern_text(v):
+    """constant pattern text of `Regex::new(<const>).unwrap()` (through references / clones), else None"""
+    for _ in range(8):
+        if isinstance(v, ccp.Call) and v.args and (v.callee.endswith("::unwrap") or v.callee.endswith("::expect")
+                                                    or v.callee.endswith("::clone") or v.callee.endswith("::deref")):
+            v = v.args[0]
+            continue
+        break
+    if isinstance(v, ccp.Call) and v.callee in ("regex::Regex::new",) and v.args:
+        a = v.args[0]
+        if isinstance(a, ccp.Tmpl) and a.is_const():
+            return a.text()
+    return None
+
+
+def split_wrapper(v):
+    """A string-to-string call around the formatted value -> (subject, callee, other arguments); None when `v` is no such call.
+    The subject is the first argument, except for the regex crate's replacers (pattern object first, text second)."""
+    if not isinstance(v, ccp.Call) or not v.args:
+        return None
+    if v.callee in REGEX_REPLACERS and len(v.args) >= 2 and isinstance(v.args[1], (ccp.Call, ccp.Tmpl)):
+        return v.args[1], v.callee, [("regex", regex_pattern_text(v.args[0]))] + list(v.args[2:])
+    if isinstance(v.args[0], (ccp.Call, ccp.Tmpl)):
+        return v.args[0], v.callee, list(v.args[1:])
+    return None
+
 
 def regexp_fmt_leaves(ctx, lib, roles, rid="FMT"):
     key = id(lib)
@@ -86,14 +115,14 @@ def regexp_fmt_leaves(ctx, lib, roles, rid="FMT"):
             if isinstance(v, ccp.Tmpl) and len(v.parts) == 1 and isinstance(v.parts[0], ccp.Hole):
                 inner = v.parts[0].v
                 # a hole that is itself the result of a string-to-string call (replace, indenter): look inside
-                if isinstance(inner, ccp.Call) and not inner.callee.endswith("to_string") and inner.args \
-                        and isinstance(inner.args[0], (ccp.Call, ccp.Tmpl)):
+                if isinstance(inner, ccp.Call) and not inner.callee.endswith("to_string") and split_wrapper(inner):
                     v = inner
                     continue
                 break
-            if isinstance(v, ccp.Call) and v.args and isinstance(v.args[0], (ccp.Call, ccp.Tmpl)):
-                wrappers.append((v.callee, list(v.args[1:])))
-                v = v.args[0]
+            sw = split_wrapper(v)
+            if sw:
+                wrappers.append((sw[1], sw[2]))
+                v = sw[0]
                 continue
             break
         wrappers.reverse()
@@ -182,13 +211,13 @@ def innermost_tmpl(v):
     for _ in range(64):
         if isinstance(v, ccp.Tmpl) and len(v.parts) == 1 and isinstance(v.parts[0], ccp.Hole):
             inner = v.parts[0].v
-            if isinstance(inner, ccp.Call) and not inner.callee.endswith("to_string") and inner.args \
-                    and isinstance(inner.args[0], (ccp.Call, ccp.Tmpl)):
+            if isinstance(inner, ccp.Call) and not inner.callee.endswith("to_string") and split_wrapper(inner):
                 v = inner
                 continue
             return v
-        if isinstance(v, ccp.Call) and v.args and isinstance(v.args[0], (ccp.Call, ccp.Tmpl)):
-            v = v.args[0]
+        sw = split_wrapper(v)
+        if sw:
+            v = sw[0]
             continue
         return v
     return v
